@@ -607,7 +607,7 @@ def gen_bound(rng, arr):
     return np.float32(v)
 
 
-def gen_polygon_points(rng, ax, ay, styles):
+def gen_polygon_points(rng, ax, ay, styles, outline=False):
     fx, fy = _finite_values(ax), _finite_values(ay)
     if fx.size == 0:
         fx = np.array([0.0, 1.0])
@@ -615,6 +615,10 @@ def gen_polygon_points(rng, ax, ay, styles):
         fy = np.array([0.0, 1.0])
     L = int(rng.integers(3, 9))
     u = rng.random()
+    if outline:
+        # a traced outline with thousands of vertices (more bytes than any block a hash or a
+        # copy may work in)
+        L, u = int(rng.choice([4097, 5000, 6500, 9001])), 0.9
     gridlike = all(s in ("grid", "int", "index") for s in styles)
     if gridlike and u < 0.6:
         # vertices on the half grid covered by the data: ties on edges and vertices
@@ -639,7 +643,7 @@ def gen_polygon_points(rng, ax, ay, styles):
         ang = np.sort(rng.uniform(0, 2 * np.pi, L))
         rad = rng.uniform(0.1, 0.8, L)
         pts = np.column_stack([cx + sx * rad * np.cos(ang), cy + sy * rad * np.sin(ang)])
-    if rng.random() < 0.15:
+    if rng.random() < 0.15 and not outline:
         pts = np.vstack([pts, pts[:1]])                      # explicit closing vertex
     return np.asarray(pts, dtype=np.float64)
 
@@ -1024,9 +1028,23 @@ def _random_op(c, rng):
     elif u < 0.75:
         if len(c.polys) < 4:
             fx, fy = [str(f) for f in rng.choice(feats, size=2, replace=False)]
-            pts = gen_polygon_points(rng, c.arr(fx), c.arr(fy), [c.styles[fx], c.styles[fy]])
+            outline = bool(rng.random() < 0.03)
+            pts = gen_polygon_points(rng, c.arr(fx), c.arr(fy), [c.styles[fx], c.styles[fy]],
+                                     outline=outline)
+            if outline:
+                c.ctx.count("polygons_with_thousands_of_vertices")
             pf = c.poly_new((fx, fy), pts, inverted=rng.random() < 0.3)
             c.poly_add(pf, how=int(rng.choice([0, 0, 1, 2])))
+            if outline:
+                # applied, then the end of the outline is redrawn (once or twice), applied again
+                c.apply()
+                for _ in range(int(rng.integers(1, 3))):
+                    p2 = pf.points.copy()
+                    k0 = len(p2) - int(rng.integers(2, 60))
+                    cen = p2.mean(axis=0)
+                    p2[k0:] = cen + (p2[k0:] - cen) * rng.uniform(0.2, 3.0)
+                    c.poly_edit(pf, p2)
+                    c.apply()
         elif c.polys:
             pf = c.polys[int(rng.integers(0, len(c.polys)))]
             c.poly_add(pf, how=int(rng.choice([0, 0, 1, 2])))     # (re-)add an existing one
@@ -1036,9 +1054,15 @@ def _random_op(c, rng):
             fx, fy = pf.axes
             if rng.random() < 0.2:
                 c.poly_swap_axes(pf)
-            elif rng.random() < 0.5:
+            elif rng.random() < 0.5 or len(pf.points) > 1000:
                 pts = pf.points.copy()
                 k = int(rng.integers(0, len(pts)))
+                if len(pts) > 1000:
+                    # the end of a long outline is redrawn
+                    k0 = len(pts) - int(rng.integers(2, 60))
+                    cen = pts.mean(axis=0)
+                    pts[k0:] = cen + (pts[k0:] - cen) * rng.uniform(0.2, 3.0)
+                    k = len(pts) - 1
                 new = gen_polygon_points(rng, c.arr(fx), c.arr(fy), [c.styles[fx], c.styles[fy]])
                 pts[k] = new[0]
                 c.poly_edit(pf, pts)
